@@ -21,6 +21,10 @@ Four clauses, all judged by oracles written from the property statement and the 
           wrapper iff the documentation says so and exactly the route path spelled; the frame is then served
           by a device whose personality was configured from text the way main() does it, and the
           accept/refuse decision must follow the table.
+  stream  cpppo's own connector.issue() (frames captured, no network) given a stream of 2..10 operations, each
+          with its own textual / structured route_path and send_path, with and without Multiple Service Packet
+          bundling: every operation must travel, in order, in a frame whose Unconnected Send carries exactly the
+          route path and send path that operation spells (a bundle never mixes paths).
   cli     enip.main.main() on a TCP socket, configured with --route-path <text> / -S / --simple / nothing,
           one forked process per configuration: same decision table, model replies, unchanged tags and zero
           counted accesses on refusal.
@@ -50,7 +54,7 @@ RULE = ('filter: case = tag configuration + UCMM personality (none | simple Fals
         'following requests are drawn; non-trivial = a case holding a request with a route path present and '
         'different from the configured one (or any present path on a simple device) that carries a write service; '
         'text: case = 1..4 (port, link) segments x text form x optional CIP path trailer, or a Falsey JSON text; '
-        'client: case = server personality text x client route_path/send_path x request; cli: case = command line x '
+        'client: case = server personality text x client route_path/send_path x request; stream: case = 2..10 client operations each with its own route path text (palette of 2-3 paths) x multiple in {0,100,150,250,500,4000}; cli: case = command line x '
         'requests over TCP')
 ASSUMPTIONS = [
     'decision table (statement): no configuration => accept every route path; simple => accept iff the request has no '
@@ -995,6 +999,127 @@ def pred_client(case, stats):
 
 
 # ------------------------------------------------------------------------------------------------
+# clause: stream (client operation streams with per-operation textual route paths)
+
+_CAPC = []
+
+
+def capture_connector():
+    if not _CAPC:
+        client = cp()['client']
+
+        class CaptureConnector(client.connector):
+            """A connector that never transmits or registers: frames handed to send() are kept."""
+
+            def __init__(self):
+                client.client.__init__(self, '127.0.0.1', port=9, udp=True)
+                self.session = 0x0C15
+                self.frames = []
+
+            def send(self, request, timeout=None):
+                self.frames.append(bytes(request))
+
+        _CAPC.append(CaptureConnector())
+    return _CAPC[0]
+
+
+@st.composite
+def stream_case_st(draw):
+    # a small palette of route paths (so that neighbours both repeat and differ), spelled in any text form per operation
+    palette = draw(st.lists(st.lists(st.tuples(port_st(), st.one_of(numeric_link_st(), address_link_st())).map(list),
+                                     min_size=1, max_size=2), min_size=2, max_size=3, unique_by=lambda p: json.dumps(p)))
+    ops = []
+    for _ in range(draw(st.integers(2, 10))):
+        which = draw(st.integers(-1, len(palette) - 1))
+        op = {'tag': draw(st.sampled_from(['A', 'B', 'SCADA', 'Motor.Speed'])), 'index': draw(st.integers(0, 9)),
+              'write': draw(st.booleans()), 'value': draw(st.integers(-100, 100)),
+              'send_path': draw(st.sampled_from([None, None, None, '@6/1']))}     # (a route path with an empty send path is refused by the client: documented assertion)
+        if which >= 0:
+            route = palette[which]
+            for seg in route:
+                if isinstance(seg[1], str) and seg[1].isdigit():
+                    seg[1] = draw(address_link_st())
+            forms = ['slash', 'slash', 'json_dicts', 'json_strs', 'structured'] + (['json_dict'] if len(route) == 1 else [])
+            op['route'] = route
+            op['form'] = draw(st.sampled_from(forms))
+        ops.append(op)
+    return {'ops': ops, 'multiple': draw(st.sampled_from([0, 100, 150, 250, 500, 4000])), 'fragment': draw(st.booleans())}
+
+
+def pred_stream(case, stats):
+    c = cp()
+    client = c['client']
+    cap = capture_connector()
+    del cap.frames[:]
+    cops, want = [], []
+    for op in case['ops']:
+        d = {'path': [{'symbolic': t} for t in op['tag'].split('.')] + [{'element': op['index']}], 'elements': 1}
+        if op['write']:
+            d.update(data=[op['value']], tag_type=rc.tcode('INT'), method='write')
+        else:
+            d.update(method='read')
+        if 'route' in op:
+            d['route_path'] = segs_of(op['route']) if op['form'] == 'structured' else render_route(op['route'], op['form'])
+            eff = op['route']
+        else:
+            eff = [[1, 0]]
+        if op['send_path'] is not None:
+            d['send_path'] = op['send_path']
+        eff_send = CM_PATH if op['send_path'] in (None, '@6/1') else []
+        cops.append(d)
+        want.append({'route_path': segs_of(eff), 'send_path': eff_send})
+    changes = sum(1 for a, b in zip(want, want[1:]) if a != b)
+    stats.case(case, nontrivial=bool(case['multiple']) and changes >= 1 and len(case['ops']) >= 3,
+               classes=['stream:multiple:%d' % case['multiple'], 'stream:path-changes:%d' % min(changes, 3)])
+    try:
+        issued = list(cap.issue(cops, multiple=case['multiple'], fragment=case['fragment']))
+    except Exception as exc:
+        stats.fail('stream', 'stream:issue-raises-%s' % type(exc).__name__, case, observed=str(exc)[:300],
+                   expected='one request per operation')
+        return
+    if len(issued) != len(cops):
+        stats.fail('stream', 'stream:request-count', case, observed=len(issued), expected=len(cops))
+        return
+    pos = 0
+    for fi, frame in enumerate(cap.frames):
+        try:
+            e = rc.dec_encap(frame)
+            sd = rc.dec_send_data(e['payload'])
+            item = sd['items'][1][1]
+            us = rc.dec_unconnected_send(item)
+            inner = rc.dec_mr_request(us['message'])
+            if inner['service'] == 0x0A:
+                members = rc.dec_multiple_body(inner['data'])
+            else:
+                members = [us['message']]
+            paths = [rc.dec_mr_request(m)['path'] for m in members]
+        except (rc.RefDecodeError, IndexError, KeyError) as exc:
+            stats.fail('stream', 'stream:frame-undecodable', case, observed={'frame': frame.hex(), 'error': str(exc)},
+                       expected='an Unconnected Send in a SendRRData frame')
+            return
+        seen = {'route_path': us['route_path'], 'send_path': us['send_path']}
+        for k, mp in enumerate(paths):
+            if pos >= len(cops):
+                stats.fail('stream', 'stream:surplus-request-on-the-wire', case, observed={'frame': fi}, expected=len(cops))
+                return
+            if mp != cops[pos]['path']:
+                stats.fail('stream', 'stream:request-order-or-path-differs', case,
+                           observed={'frame': fi, 'member': k, 'path': mp}, expected={'operation': pos, 'path': cops[pos]['path']})
+                return
+            if seen != want[pos]:
+                stats.fail('stream', 'stream:operation-carried-with-other-route-path', case,
+                           observed=dict(seen, frame=fi, member=k, operation=pos, members=len(paths),
+                                         spelled=cops[pos].get('route_path'), spelled_send=cops[pos].get('send_path')),
+                           expected=want[pos])
+                return
+            pos += 1
+    if pos != len(cops):
+        stats.fail('stream', 'stream:operations-not-all-on-the-wire', case, observed=pos, expected=len(cops))
+    stats.count('stream:frames', len(cap.frames))
+    stats.count('stream:bundles-with-2+-members', sum(1 for f in cap.frames if b'\x0a\x02\x20\x02\x24\x01' in f))
+
+
+# ------------------------------------------------------------------------------------------------
 # clause: cli (one forked child process per case: the simulator keeps its state in module globals)
 
 
@@ -1154,11 +1279,12 @@ CLI_FIXED = [
 # ------------------------------------------------------------------------------------------------
 # running
 
-CLAUSES = {'filter': pred_filter, 'text': pred_text, 'client': pred_client, 'cli': pred_cli}
+CLAUSES = {'filter': pred_filter, 'text': pred_text, 'client': pred_client, 'cli': pred_cli, 'stream': pred_stream}
 STRATEGIES = {
     'filter': lambda skey: filter_case_st(skey),
     'text': lambda skey: text_case_st(),
     'client': lambda skey: client_case_st(),
+    'stream': lambda skey: stream_case_st(),
 }
 # (cli failures are not re-run under Hypothesis: every evaluation starts a TCP simulator in a forked process; the
 #  predicate itself reduces a failing case to the single failing request)
@@ -1181,6 +1307,7 @@ def shard_free(job):
     common.hyp_run(s, filter_case_st(None), pred_filter, n_filter, common.shard_seed(seed, idx), 'filter', PID, skey=None)
     common.hyp_run(s, text_case_st(), pred_text, n_text, common.shard_seed(seed, 100 + idx), 'text', PID, skey=None)
     common.hyp_run(s, client_case_st(), pred_client, n_client, common.shard_seed(seed, 200 + idx), 'client', PID, skey=None)
+    common.hyp_run(s, stream_case_st(), pred_stream, n_client * 2, common.shard_seed(seed, 400 + idx), 'stream', PID, skey=None)
     return s
 
 
